@@ -5433,7 +5433,11 @@ def unfold_part_alignment(part, alignment):
         for i, aid in enumerate(alignment_ids):
             alignment_score_ids[i, j] = aid in u_part_ids
 
-    coverage = np.mean(alignment_score_ids, 0)
+    if len(alignment_ids) > 0:
+        coverage = np.mean(alignment_score_ids, 0)
+    else:
+        # the alignment names no score note: every unfolding covers it
+        coverage = np.zeros(len(score_variants))
 
     best_idx = np.where(coverage == coverage.max())[0]
 
